@@ -31,6 +31,9 @@ GNext ==
      \/ \E i \in {x \in RegIds : Turn(x, 3)} : Cancel(i) /\ Rec(Ev("Cancel", i, 0, 0, 0, <<>>, 0))
      \/ \E w \in 1..4 : \E t \in ConfTargets : HistConf(t) /\ Rec(Ev("HistConf", 0, t, 0, 0, <<>>, 0))
      \/ \E w \in 1..4 : \E o \in SpendTargets : HistSpend(o) /\ Rec(Ev("HistSpend", 0, o, 0, 0, <<>>, 0))
+     \* backend ahead: n = 1 for confirmations, the spender variant for spends
+     \/ \E w \in 1..2 : \E t \in ConfTargets : HistConfAhead(t) /\ Rec(Ev("HistConfAhead", 0, t, 1, 0, <<>>, 0))
+     \/ \E o \in SpendTargets : \E v \in 1..2 : HistSpendAhead(o) /\ Rec(Ev("HistSpendAhead", 0, o, v, 0, <<>>, 0))
 GSpec == GInit /\ [][GNext]_<<vars, hist>>
 
 Dump == Len(hist) = MaxHist =>
